@@ -141,6 +141,9 @@ func c07T2(c *Ctx) {
 		r.Min("C07-T1", n, 2, "PFAdd: places where the reply becomes 1")
 		r.StoreValues("C07-T1", u, an.LocalStore("added"), []string{"TUPLE p3.addCount(recv.hasher64, p2...) #0", "TUPLE item.addCount(recv.hasher64, p2...) #0"}, 0)
 	}
+	// a failed command leaves nothing in the shared batch: AbortBatch clears the store's write batch unconditionally
+	// (also when no batch is open: an unbatched command that failed half way has staged writes too)
+	c07AbortClears(c, "C07-T2")
 	// every key a batchable command writes is covered by the duplicate check: the check registers cmd.Args[1] only, so
 	// the apply handler of a batchable command hands exactly that key to the store, unless IsBatchable refuses the
 	// command's multi-key form
@@ -319,5 +322,19 @@ func c07BatchableKeys(c *Ctx) {
 		default:
 			r.Bad("C07-T2", construct, u.Pos(u.Body.Pos()), why+"; keys other than the first are not in the duplicate-check map, so a later command of the same batch on such a key is evaluated against the store as it was before this command")
 		}
+	}
+}
+
+func c07AbortClears(c *Ctx, rule string) {
+	r := c.R
+	if u := c.unit(rule, "rockredis.(*RockDB).AbortBatch"); u != nil {
+		clr := an.AnyCall().Where("recv.wb.Clear()", func(u *an.Unit, s *an.Site) bool {
+			sel, ok := s.Call.Fun.(*ast.SelectorExpr)
+			return ok && sel.Sel.Name == "Clear" && u.C.Term(sel.X) == "recv.wb"
+		})
+		r.Order(rule, u, an.Return(), []an.M{clr}, an.OrderOpts{Min: 1})
+	}
+	if u := c.unit(rule, "node.(*kvbatchOperator).AbortBatchForError"); u != nil {
+		r.Order(rule, u, an.Return(), []an.M{an.Call("node.KVStore.AbortBatch", "node.(*KVStore).AbortBatch", "rockredis.(*RockDB).AbortBatch")}, an.OrderOpts{Min: 1})
 	}
 }
